@@ -24,7 +24,8 @@ LEVEL_NOTE = ('trusted: Lean kernel + standard axioms; correspondence harness; t
               'map" (XZZX = Hadamard exactly on the qubits along the chosen axis, XY = Y<->Z everywhere) is checked on '
               'every qubit of the bounded size set by the statement-level oracle; for the hand-modelled lattice classes the '
               'closed-form rule is a theorem for all sizes (deformation_rule* in Properties/C01<Class>.lean, incl. XXZZ of '
-              'Color488Code, X3Z3 of Color666ToricCode and the Checkerboard XZZX rule of the two rhombic codes); the noise-side '
+              'Color488Code, X3Z3 of Color666ToricCode, the Checkerboard XZZX rule of the two rhombic codes and of '
+              'HollowRhombicCode; Color3DCode has none); the noise-side '
               'identity P_D(e) = P(D e) is proved in C07/C18 (deformed_distribution, product form) and exercised here')
 TECHNIQUE = 'Lean 4 proof (per-qubit case analysis, list induction, state-machine invariant) + differential correspondence'
 TRUSTED = ['class getters return fresh dicts on each call (model assumption of Model/Deform.lean, exercised by the history stream)']
